@@ -49,6 +49,7 @@ struct thr {
 } T[MAXT];
 static struct { pthread_mutex_t *m; int owner; } MX[128]; static int nmx;
 static int mx_idx(pthread_mutex_t *m){ for(int i=0;i<nmx;i++) if(MX[i].m==m) return i; MX[nmx].m=m; MX[nmx].owner=-1; return nmx++; }
+int vs_mutex_owner(pthread_mutex_t *m){ return MX[mx_idx(m)].owner; }
 static int NT;
 static sem_t ctl, born;
 static __thread int me = -1;
@@ -57,6 +58,8 @@ int vs_tso = 1, vs_strict = 1; long vs_step_limit = 100000;
 static void (*sig_handler)(int);
 int vs_self(void){ return me; }
 long vs_steps(int t){ return T[t].steps; }
+static int mx_idx(pthread_mutex_t *m);
+int vs_mutex_owner(pthread_mutex_t *m); /* scenario thread id holding m under the emulation, -1 when free */
 void vs_set_signal_handler(void (*fn)(int)){ sig_handler=fn; }
 
 static struct { const void *base; size_t sz; const char *name; } regs[512]; static int nregs;
